@@ -399,6 +399,24 @@ def rule_embed_dupes(check, model, rule):
     check.floor(rule, 'paths of _embed', n, 10)
 
 
+def _merge_model_for(model):
+    if not hasattr(model, '_merge_model'):
+        try:
+            from .merge_model import MergeModel
+            mm = MergeModel(model.repo, model.proto)
+            # canonical guards are computed lazily: walk the paths once so that the `is None` tests get recorded
+            from .rules_merge import PathRec
+            for kind, info, loop, outer in mm.loops():
+                for sp in loop.sub:
+                    PathRec(mm, sp, info.get('cur', {}))
+            for p, _ in list(mm.ret_paths) + [(p, None) for p in mm.raise_paths]:
+                PathRec(mm, p, {}, toplevel=True)
+            model._merge_model = mm
+        except Inconclusive:
+            model._merge_model = None
+    return model._merge_model
+
+
 def rule_embed_flags(check, model, rule):
     """C02.R4: star-flag coherence inside _embed and name-preserving forwarding from embed()"""
     proto = model.proto
@@ -418,6 +436,18 @@ def rule_embed_flags(check, model, rule):
                 flags[kind] = flag
                 check.holds(rule, st, 'the outer %s is offered to the inner signature only under its own flag %s' % (kind, flag[1]), key=key,
                             effect=show(t))
+                # `flag and star` is False -- not None -- when the flag is off: the merger must treat any falsy placeholder as
+                # "no star", i.e. test its star slots by truthiness
+                mm = _merge_model_for(model)
+                key2 = '_signatures:_embed|stars|%s|placeholder' % kind
+                tests = [a for a in mm.isnone_star_tests if mm.proto.kind_at(mm.sides.bucket(a[1])[1]) == kind] if mm is not None else []
+                if tests:
+                    check.violation(rule, st, 'with %s off the %s offered to the inner signature is the placeholder False (`%s`), but _Merger tests that '
+                                    'slot with `is None` (%s): False counts as a star parameter, so the inner positionals are embedded although '
+                                    'nothing forwards them' % (flag[1], kind, show(t)[:50], show(tests[0][1])[:40]), key=key2,
+                                    witness="embed(s('a, *args, **kwargs'), s('b, /'), use_varargs=False) must raise, not return (a, b, /)")
+                elif mm is not None:
+                    check.holds(rule, st, '_Merger tests its %s slots by truthiness: the False placeholder means "no star"' % kind, key=key2)
             else:
                 check.violation(rule, st, 'stars operand position %d (%s) offers %s' % (idx, kind, show(star)), key=key, effect=show(t),
                                 witness="embed(s('*args'), s('a'), use_varkwargs=False)")
